@@ -303,6 +303,20 @@ def c16(run, args):
     rng = random.Random(run.seed)
     vh = run.build_harness()
     run.model_check("MCMailstore", MC_CFG % dict(caps="0, 1, 2", limits="0, 3", maxadds=3 if quick else 4), label="MCMailstore(caps x limits)")
+    # the implementation-shaped model of the path an after-event takes (DispatcherImpl.tla: lanes per listener name, drain
+    # goroutines): C16's statements hold on it as written; each named deviation (the code before a67b2b3 and three seeded
+    # changes) must make TLC find its predicted failure
+    disp_cfg = lambda msgs, pe, re_, sn, sb: ("SPECIFICATION Spec\nCONSTANTS\n  Msgs = {%s}\n  PerEvent = %s\n  RetireEarly = %s\n  SplitNames = %s\n  SharedBatch = %s\n"
+                                              "INVARIANTS NoOverlap InOrderOnce StoredBeforeDeleted NothingLost NoStranded\nCHECK_DEADLOCK FALSE\n" % (msgs, pe, re_, sn, sb))
+    F, T = "FALSE", "TRUE"
+    run.model_check("DispatcherImpl", disp_cfg("1, 2, 3" if quick else "1, 2, 3, 4", F, F, F, F), label="DispatcherImpl (as written)", workers=4)
+    for name, flags in (("PerEvent", (T, F, F, F)), ("RetireEarly", (F, T, F, F)), ("SplitNames", (F, F, T, F)), ("SharedBatch", (F, F, F, T))):
+        rc, out, dt = run.tlc("DispatcherImpl", disp_cfg("1, 2", *flags), workers=4, timeout=600, heap="4g")
+        predicted = [x for x in ("NoOverlap", "InOrderOnce", "StoredBeforeDeleted", "NothingLost") if ("Invariant %s is violated" % x) in out]
+        run.cov["stages"].append({"stage": "model-check", "module": "DispatcherImpl(%s=TRUE)" % name, "mode": "prediction", "violated_as_predicted": predicted, "wall_s": round(dt, 1)})
+        run.log("DispatcherImpl with %s: predicted counterexample found for %s" % (name, predicted))
+        if not predicted:
+            raise Inconclusive("the deviation %s of DispatcherImpl no longer produces its predicted failure: model and check have drifted apart" % name)
     bfs = run.generate("GenMailstore", gen_cfg(2, [1, 2], [1], 4, scan=True, seen=False))
     # thorough: every depth-4 sequence under every limit combination, and a seed-chosen sample of the depth-5 sequences
     # (all ~94 000 of them under nine combinations would be ~10 M trace events) under one rotating combination each
